@@ -751,9 +751,38 @@ func (g *G) lateRejectFamily(rid int) {
 	}
 }
 
+// onlyRouteFamily: ONE live route, then every name-only / '-' variant of it: each must be rejected as ambiguous and
+// nothing may change.
+func (g *G) onlyRouteFamily(rid int) {
+	g.routerLine(rid, routerOpt{name: "only" + strconv.Itoa(rid), icpt: icptTable})
+	rule := g.pick([]string{"", ":\\d+", ":digit", ":[a-z]+"})
+	tail := g.pick([]string{"", "/x", ".html", "/{k}"})
+	mk := func(name string) string { return "/o/{" + name + rule + "}" + tail }
+	p := mk("id")
+	g.emit("handle %d %s 1 %s %s", rid, encB(p), "%-", encL([]string{"GET"}))
+	probe := func() {
+		g.emit("routes %d", rid)
+		for _, m := range []string{"GET", "POST", "OPTIONS"} {
+			g.serveLine("serve", rid, m, g.instantiate(p, []string{"5", "ab"}), "", nil)
+		}
+	}
+	probe()
+	for i, v := range []string{mk("uid"), mk("-id"), mk("-x"), mk("i"), strings.Replace(mk("id"), "{k}", "{kk}", 1)} {
+		if v == p {
+			continue
+		}
+		g.emit("handle %d %s %d %s %s", rid, encB(v), 2+i, "%-", encL([]string{g.pick([]string{"GET", "POST", "PUT"})}))
+		probe()
+	}
+}
+
 func streamReject(g *G) { // C17
 	rid := 1
 	for !g.full() {
+		if g.chance(0.25) {
+			g.onlyRouteFamily(rid)
+			rid++
+		}
 		if g.chance(0.4) {
 			g.ambiguityFamily(rid)
 			rid++
